@@ -78,6 +78,8 @@ def guarded(ctx, fn, node):
 
 
 def check(ctx, rep):
+    from . import c15, _share
+    _share.share(ctx, rep, c15, ('cipher.',), 'a protected program runs exactly as its original only if decoding returns every byte of it: the cipher pair is a bijection and unprotect drops nothing but the final EOF marker')
     # ---- R1 ---------------------------------------------------------------
     n_acc = 0
     for meth in ('list_lines', 'edit', 'save', 'store_line'):
